@@ -19,20 +19,27 @@ SERIAL = {"pipeline": 8, "pipefault": 8, "marshal": 4}
 PROPS = {
     "C01": {
         "modules": ["PgBifrost.Props.C01"],
-        "components": ["ledger", "batcher", "pipeline"],
+        "components": ["ledger", "batcher", "pipeline", "kinesis", "s3", "rabbit", "kafka"],
+        # layer L3: a worker reporting written without full acceptance by the sink is a C01 violation too
+        "counts_from": {"C11": "written|accepted", "C12": "written", "C13": "written|confirm", "C14": "written"},
         "required_theorems": ["PgBifrost.Props.C01.ledger_emit_safe_partial", "PgBifrost.Props.C01.ledger_never_panics_partial",
-                              "PgBifrost.Props.C01.ledger_emit_unsafe_witness"],
+                              "PgBifrost.Props.C01.ledger_emit_unsafe_witness", "PgBifrost.Props.C01.sys_ledger_trace_contract",
+                              "PgBifrost.Props.C01.sys_tracker_never_panics", "PgBifrost.Props.C01.sys_ack_safe",
+                              "PgBifrost.Props.C01.sys_crash_restart_no_loss", "PgBifrost.Props.C01.sys_nostale_needs_schedule_witness"],
         "partial": "full statement false on the unchanged tree (finding F1): the ledger theorem is proved under NoStale, the "
                    "witness theorem proves the full one false. Layers: L1 ledger (theorem), L2 batcher contract (C04 "
                    "seen_before_dispatch*, seen_log_exact, txns_global_accounting), L3 workers (C11-C14), L4 client (C03); the "
-                   "composed system statement is decided by the pipeline harness (real stages assembled, Lean-evaluated monitors "
-                   "Spec.Pipeline.safe + Spec.Ledger.checkContract on the observed ledger trace), not by one composed theorem",
+                   "composed system (Model/Sys: batcher, per-worker FIFO queues, sink accept/retry, written FIFO, seen applied at the "
+                   "rendezvous, tracker) is proved: sys_ledger_trace_contract, sys_ack_safe, sys_crash_restart_no_loss - with redelivery "
+                   "only under the scheduling hypothesis redeliverQuiet (otherwise F1: sys_nostale_needs_schedule_witness). The "
+                   "composition logic itself (channels) is tied to the code by the pipeline harness monitors on the real stages",
         "assumptions": ["ledger trace contract E1-E3 (DESIGN §6/C01) and NoStale (E4) as hypotheses of the ledger theorem"],
     },
     "C02": {
         "modules": ["PgBifrost.Props.C02"],
         "components": ["ledger", "client", "batcher", "pipeline"],
-        "required_theorems": ["PgBifrost.Props.C02.ledger_drains_partial", "PgBifrost.Props.C02.recovery_commit_closes_open_delivery"],
+        "required_theorems": ["PgBifrost.Props.C02.ledger_drains_partial", "PgBifrost.Props.C02.recovery_commit_closes_open_delivery",
+                              "PgBifrost.Props.C02.sys_quiesces"],
         "partial": "ledger layer proved under NoStale (finding F1 makes the full statement false). Client error recovery: "
                    "recovery_commit_closes_open_delivery is about the model of the repaired client (fix: commit for F2); "
                    "system-level quiescence is decided by the pipeline harness monitors (caughtUp, ledger empty), not one theorem",
@@ -42,7 +49,7 @@ PROPS = {
     },
     "C03": {
         "modules": ["PgBifrost.Props.C03"],
-        "components": ["client"],
+        "components": ["client", "connmgr"],
         "required_theorems": ["PgBifrost.Props.C03.acks_monotone", "PgBifrost.Props.C03.acks_sourced",
                               "PgBifrost.Props.C03.ack_is_running_max", "PgBifrost.Props.C03.restart_lsn_exact",
                               "PgBifrost.Props.C03.client_write_sites_as_modelled"],
@@ -57,7 +64,8 @@ PROPS = {
         "components": ["batcher", "batch", "filter", "partitioner", "marshal", "pipeline"],
         "required_theorems": ["PgBifrost.Props.C04.batcher_partition_faithful", "PgBifrost.Props.C04.batch_single_key",
                               "PgBifrost.Props.C04.batch_txns_exact", "PgBifrost.Props.C04.txns_global_accounting",
-                              "PgBifrost.Props.C04.batcher_never_dead"],
+                              "PgBifrost.Props.C04.batcher_never_dead", "PgBifrost.Props.C04.sys_exactly_once",
+                              "PgBifrost.Props.C04.sys_exactly_once_live"],
         "partial": "the batcher/batches part is one unbounded theorem; the composition with filter, partitioner and marshaller "
                    "(each tied by its own correspondence; C08, C06, C10 theorems) and with the workers is decided by the pipeline "
                    "harness monitor Spec.Pipeline.exactlyOnce on the assembled real stages, not by one composed theorem",
@@ -78,7 +86,7 @@ PROPS = {
     },
     "C07": {
         "modules": ["PgBifrost.Props.C07"],
-        "components": ["client"],
+        "components": ["client", "connmgr"],
         "required_theorems": ["PgBifrost.Props.C07.stamp_attribution", "PgBifrost.Props.C07.keys_unique",
                               "PgBifrost.Props.C07.one_commit_per_key", "PgBifrost.Props.C07.begin_without_commit"],
         "assumptions": ["PG-stream grammar (DESIGN §3) as decidable hypothesis pgGrammar on the history",
@@ -166,7 +174,7 @@ PROPS = {
     },
     "C16": {
         "modules": ["PgBifrost.Props.C16"],
-        "components": ["batcher"],
+        "components": ["batcher", "batch"],
         "required_theorems": ["PgBifrost.Props.C16.tick_flushes_due", "PgBifrost.Props.C16.tick_pressure",
                               "PgBifrost.Props.C16.tick_pressure_order"],
         "partial": "the tick DECISION is proved for every open set, clock reading and Go map/heap order (validTick); that a tick is "
@@ -175,7 +183,7 @@ PROPS = {
     },
     "C17": {
         "modules": ["PgBifrost.Props.C17"],
-        "components": ["pipefault"],
+        "components": ["pipefault", "kinesis", "s3", "kafka", "rabbit"],
         "required_theorems": ["PgBifrost.Props.C17.stage_death_cancels", "PgBifrost.Props.C17.stages_good",
                               "PgBifrost.Props.C17.stages_complete", "PgBifrost.Props.C17.pg_bifrost_fail_stop",
                               "PgBifrost.Props.C17.no_half_dead", "PgBifrost.Props.C17.main_waits_then_exits"],
